@@ -245,17 +245,30 @@ pub fn deviations_ex(cfg: &AttackCfg, r: &RefRun, seed: u64, also_live: bool) ->
             let ver = &r.run.transcript[ss[vi].tr];
             let comm = &r.run.transcript[ss[ci].tr];
             let (Ok(V::Vec(mut vel, vl)), Ok(V::Vec(mut cel, cl))) = (schema::decode_msg("fashare ver", &ver.data), schema::decode_msg("fashare comm", &comm.data)) else { continue };
-            for (what, byte, mask) in [("claimed-bit+cm", 0usize, 1u8), ("mac+cm", 1 + rng.random_range(0..16 * (n - 1)), 1u8), ("noncanonical-bit+cm", 0usize, 2u8)] {
+            // (label, byte to alter, xor mask, new length if the decommitment is also cut short)
+            for (what, byte, mask, cut) in [
+                ("claimed-bit+cm", 0usize, 1u8, None),
+                ("mac+cm", 1 + rng.random_range(0..16 * (n - 1)), 1u8, None),
+                ("noncanonical-bit+cm", 0usize, 2u8, None),
+                ("one-byte-short+cm", 0usize, 0u8, Some(usize::MAX)),
+                ("bit-only+cm", 0usize, 0u8, Some(1usize)),
+                ("empty+cm", 0usize, 0u8, Some(0usize)),
+            ] {
                 let round = rng.random_range(0..vel.len().max(1));
                 let (mut vel2, mut cel2) = (vel.clone(), cel.clone());
                 let mut dm: Vec<u8> = match &vel2[round] {
                     V::Vec(bs, _) => bs.iter().map(|b| if let V::U8(x) = b { *x } else { 0 }).collect(),
                     _ => continue,
                 };
-                if byte >= dm.len() {
+                if let Some(c) = cut {
+                    let keep = if c == usize::MAX { dm.len().saturating_sub(1) } else { c };
+                    dm.truncate(keep);
+                } else if byte >= dm.len() {
                     continue;
+                } else {
+                    dm[byte] ^= mask;
                 }
-                dm[byte] ^= mask;
+                let _ = (byte, mask);
                 let h = blake3::hash(&dm);
                 vel2[round] = V::Vec(dm.iter().map(|b| V::U8(*b)).collect(), dm.len() as u64);
                 if let V::Tup(fields) = &mut cel2[round] {
@@ -735,7 +748,7 @@ impl Check for C04 {
         "fault_enumeration"
     }
     fn rule(&self) -> String {
-        "three sub-checks. A (fault enumeration): per attack configuration (n in {2,3}) every verification step of the preprocessing is attacked with a deviation for which the protocol promises detection - coin-toss commitment / opening (message and, through a tap, the cheater using the other seed itself), base-OT point and both ciphertexts of a base OT, one ALSZ column flipped in 64 of 128 rows, each KOS check field, aBit check bit / MAC, aShare commitments c0+c1 and cm / claimed bit / MAC / opening, HaAND pair, LaAND e / u / commitment / check value, d-value bit / MAC, Beaver d / e / MACs, echo hashes of the verified broadcast (n=3), own d-value and Beaver openings through taps, same-element field combinations (check bit + MAC, Beaver d + e, all d bits of a bucket), and liars that stay consistent with their own commitments (claimed bit / MAC / non-canonical bit byte of 'fashare ver' with a recomputed cm; a wrong key sum with recomputed c0 / c1) - at first / last / random index, towards one recipient and (n=3, broadcast values) consistently towards all; scripted adversary for message deviations, live + tap for self-consistent lies; an honest party that received the bad value and returns Ok is a violation. B (history check over every run of A and the honest reference runs): no honest party sends its k-th 'RNG ver' / 'fashare ver' / 'fashare di_bi' / 'flaand hash' before it completed the receive of every other party's k-th commitment (operation order numbers). C (predictor vs probe, honest runs): the first KOS check coefficient, the aBit test string and the bucket permutation, probed inside the engine, are compared with what an outsider computes from the coin-toss openings seen on the wire strictly before the data under check was sent; alarm only on an exact match (128-bit values; permutations of at least 25 elements, since a shorter one can coincide by chance), or when two OT sessions used the same first coefficient. distinct = (configuration, deviation) with an effective fault".into()
+        "three sub-checks. A (fault enumeration): per attack configuration (n in {2,3}) every verification step of the preprocessing is attacked with a deviation for which the protocol promises detection - coin-toss commitment / opening (message and, through a tap, the cheater using the other seed itself), base-OT point and both ciphertexts of a base OT, one ALSZ column flipped in 64 of 128 rows, each KOS check field, aBit check bit / MAC, aShare commitments c0+c1 and cm / claimed bit / MAC / opening, HaAND pair, LaAND e / u / commitment / check value, d-value bit / MAC, Beaver d / e / MACs, echo hashes of the verified broadcast (n=3), own d-value and Beaver openings through taps, same-element field combinations (check bit + MAC, Beaver d + e, all d bits of a bucket), and liars that stay consistent with their own commitments (claimed bit / MAC / non-canonical bit byte of 'fashare ver', or a decommitment cut short by one byte / to the bit / to nothing, with a recomputed cm; a wrong key sum with recomputed c0 / c1) - at first / last / random index, towards one recipient and (n=3, broadcast values) consistently towards all; scripted adversary for message deviations, live + tap for self-consistent lies; an honest party that received the bad value and returns Ok is a violation. B (history check over every run of A and the honest reference runs): no honest party sends its k-th 'RNG ver' / 'fashare ver' / 'fashare di_bi' / 'flaand hash' before it completed the receive of every other party's k-th commitment (operation order numbers). C (predictor vs probe, honest runs): the first KOS check coefficient, the aBit test string and the bucket permutation, probed inside the engine, are compared with what an outsider computes from the coin-toss openings seen on the wire strictly before the data under check was sent; alarm only on an exact match (128-bit values; permutations of at least 25 elements, since a shorter one can coincide by chance), or when two OT sessions used the same first coefficient. distinct = (configuration, deviation) with an effective fault".into()
     }
     fn assumptions(&self) -> Vec<String> {
         vec![
